@@ -81,6 +81,7 @@ func runC11(w *World, r *Report, tier string) {
 	for _, n := range names {
 		ruleElementwise(w, r, n, 0)
 	}
+	ruleCacheKey(w, r, own)
 	// REUSE: the per-axis zoom change is integrate's
 	r.Rule("REUSE", "the horizontal and vertical components of both conversion directions are produced by integrate.HorizontalZoom / integrate.VerticalZoom (resolved callees), so different output zooms behave exactly like the zoom change of C03 on each axis")
 	for _, n := range names {
@@ -157,6 +158,7 @@ func runC13(w *World, r *Report, tier string) {
 	kr.emit(w, r, []string{"ROUND", "KIND-CALL", "KIND-LAYOUT", "KIND-STORE"}, own)
 	ruleTileLoop(w, r)
 	ruleTileCompose(w, r)
+	ruleCacheKey(w, r, own)
 	ruleElementwise(w, r, "transform.ConvertTileXYZsToExtendedSpatialIDs", 0)
 	ruleElementwise(w, r, "transform.ConvertTileXYZsToSpatialIDs", 0)
 	if f := lookupByName(w, "transform.ConvertTileXYZsToExtendedSpatialIDs"); f != nil {
